@@ -322,10 +322,34 @@ def gen_recovery(seed, world, cfgname, p1, p2, picks):
             "seq": [p1, p2], "steps": [{"k": "rng", "op": "seed", "v": 4321}, sw]}
 
 
+def _with_layout(R, args):
+    """Give one dense matrix argument a non-default memory layout."""
+    out = []
+    for a in args:
+        if isinstance(a, dict) and a.get("gen") in ("gauss", "psvd", "int", "herm") and not a.get("storage") \
+                and R.random() < 0.5:
+            a = dict(a, layout=R.choice(["F", "T", "strided"]))
+        out.append(a)
+    return out
+
+
+def _twin(R, args):
+    """Same shapes as a pool problem, different data (defeats caches keyed by shape)."""
+    out = []
+    for a in args:
+        if isinstance(a, dict) and "seed" in a:
+            a = dict(a, seed=a["seed"] + 1000 + R.randrange(3))
+        out.append(a)
+    return out
+
+
 def _random_problem(R, cfgname):
     name, cls, cfg, meth, pool = CONFIG_BY_NAME[cfgname]
-    if R.random() < 0.6:
+    x = R.random()
+    if x < 0.4:
         return R.choice(pool)
+    if x < 0.6:
+        return _twin(R, R.choice(pool))
     s = R.randrange(10 ** 6)
     if name.startswith("gmres"):
         n = R.randint(1, 6)
@@ -380,6 +404,8 @@ def gen_random(seed, world, tier):
             continue
         if x < 0.45:
             st = gen_fn_step(R, client)
+            if R.random() < 0.25 and st["fn"] not in _inplace():
+                st["args"] = _with_layout(R, st["args"])
         else:
             oi = R.randrange(nobj)
             cname = cfgs[oi]
@@ -392,6 +418,8 @@ def gen_random(seed, world, tier):
                                   "v": R.randrange(1000), "client": (client + 1) % nclients})
             st = {"k": "call", "obj": f"s{oi}", "meth": meth, "args": _random_problem(R, cname),
                   "client": client, "cfgname": cname}
+            if R.random() < 0.2:
+                st["args"] = _with_layout(R, st["args"])
         if R.random() < 0.35:
             st["clock"] = R.choice(CLOCK_SCRIPTS[1:])
         if R.random() < 0.15 and st.get("fn") not in _inplace():
